@@ -329,8 +329,9 @@ class TextTokenizationTensorMapper(TensorMapper):
         *,
         device: torch.device | None = None,
     ) -> dict[str, MultiNestedTensor]:
-        ser = ser.astype(str)
-        ser_list = ser.tolist()
+        # NOTE: `astype(str)` may keep missing values as float NaN (pandas'
+        # native string dtype), so render each cell explicitly.
+        ser_list = [str(x) for x in ser.tolist()]
 
         feat_dict = {}
         if self.batch_size is None:
@@ -419,8 +420,9 @@ class EmbeddingTensorMapper(TensorMapper):
     ) -> MultiEmbeddingTensor:
 
         if self.embedder is not None:
-            ser = ser.astype(str)
-            ser_list = ser.tolist()
+            # NOTE: `astype(str)` may keep missing values as float NaN
+            # (pandas' native string dtype), so render each cell explicitly.
+            ser_list = [str(x) for x in ser.tolist()]
             if self.batch_size is None:
                 values = self.embedder(ser_list)
             else:
